@@ -492,6 +492,14 @@ func init() {
 		k.PSave = 3
 		k.PCall = 2
 		k.MaxWidth = 5
+		if gen.Chance(t, "c07f.aligned", 10) {
+			tight := gen.Chance(t, "c07f.tight", 50)
+			ec := gen.AlignedCase(t, tight)
+			if tight || gen.Chance(t, "c07f.aligned.colliding", 30) {
+				ec.Rename(gen.CollidingNames(1))
+			}
+			return ec
+		}
 		ec := gen.NewTG(t, k).Case()
 		// segmented account names whose "source:destination" spellings coincide
 		if gen.Chance(t, "c07f.colliding", 12) {
